@@ -91,7 +91,15 @@ def q_recv(ex, args, callee):
 
 
 def q_try_recv(ex, args, callee):
-    raise Unsupported('try_recv in the worker (non-blocking polling is not modelled)')
+    k = ex.nondet(3, 'try_recv')
+    label = ['some', 'none', 'empty'][k]
+    op(ex, 'try_recv', label)
+    if k == 0:
+        ex.recv_count = getattr(ex, 'recv_count', 0) + 1
+        return ok(some(Str((Atom('recvd', z3.BitVec('len_recvd', 64)),), 'String')))
+    if k == 1:
+        return ok(NONE)
+    return err(Agg('enum', 'TryRecvError', 'Empty', (), 0))
 
 
 def q_iter(ex, args, callee):
@@ -141,7 +149,8 @@ def wrapped_emit(ex, args, callee):
     op(ex, 'wrapped_emit', label, arg=s.key(), err=tok.ident if tok is not None else None,
        kind_term=tok.state[1] if tok is not None else None)
     if k == 0:
-        return ok(Int(s.length(), 'usize'))
+        # the wrapped sink is environment: the count it reports is its own business (any usize)
+        return ok(Int(ex.fresh('wrapped_ret', 64), 'usize'))
     if k == 1:
         return err(tok)
     raise Unwinding(('wrapped-sink-panic',))
